@@ -315,6 +315,55 @@ def expected_resources(req):
     return out
 
 
+def vis_terms(req):
+    """Per service: (schema term, table term, roots term) for Model/ResVis.v, derived from the INPUT descriptors."""
+    from google.api import resource_pb2
+    from google.longrunning import operations_pb2
+    msgs, table = [], []
+
+    def walk(prefix, m, top):
+        fqn = prefix + "." + m.name
+        ftypes = [f.type_name for f in m.field if f.type == f.TYPE_MESSAGE]
+        refs = []
+        for f in m.field:
+            ref = f.options.Extensions[resource_pb2.resource_reference]
+            if ref.type or ref.child_type:
+                refs.append(ref.type or ref.child_type)
+        rr = m.options.Extensions[resource_pb2.resource]
+        res = (rr.type, rr.pattern[0]) if rr.pattern else None
+        msgs.append((fqn, ftypes, refs, res))
+        for n in m.nested_type:
+            walk(fqn, n, False)
+    for fp in req.proto_file:
+        file_defs = [(rd.type, rd.pattern[0]) for rd in fp.options.Extensions[resource_pb2.resource_definition] if rd.pattern]
+        tops = []
+        for m in fp.message_type:
+            walk("." + fp.package if fp.package else "", m, True)
+            rr = m.options.Extensions[resource_pb2.resource]
+            if rr.type and rr.pattern:
+                tops.append((rr.type, rr.pattern[0]))
+        table += file_defs + tops
+    sch = coq.lst(f"mkV {coq.s(n)} {coq.slist(ft)} {coq.slist(rf)} " + ("None" if rs is None else f"(Some ({coq.s(rs[0])}, {coq.s(rs[1])}))")
+                  for n, ft, rf, rs in msgs)
+    tbl = coq.lst(f"({coq.s(t)}, {coq.s(p)})" for t, p in table)
+    out = {}
+    for fp in req.proto_file:
+        if fp.name not in req.file_to_generate:
+            continue
+        for s in fp.service:
+            roots = []
+            for m in s.method:
+                roots.append(m.input_type)
+                oi = m.options.Extensions[operations_pb2.operation_info]
+                if m.output_type == ".google.longrunning.Operation" and oi.response_type:
+                    rt = oi.response_type
+                    roots.append("." + rt if "." in rt else f".{fp.package}.{rt}")
+                else:
+                    roots.append(m.output_type)
+            out[s.name] = coq.slist(roots)
+    return sch, tbl, out
+
+
 def resource_api(r):
     """A conventional API whose resource patterns come from the pattern grammar; also file-level definitions and references."""
     api = apis.conventional(r)
@@ -364,6 +413,7 @@ def run_e2e(ctx, n):
         jobs.append((i, req))
     results = gen.pmap(lambda j: gen.run_generator(j[1]), jobs)
     checks = []
+    vis_defs, vis_checks = [], []
     for (i, req), (res, err) in zip(jobs, results):
         case = {"e2e_index": i, "request_b64": apigen.req_b64(req)}
         if res is None:
@@ -371,6 +421,8 @@ def run_e2e(ctx, n):
             continue
         exp = expected_resources(req)
         files = gen.files_of(res)
+        vsch, vtbl, vroots = vis_terms(req)
+        vis_defs.append(f"Definition vsch{i} : vschema := {vsch}.\nDefinition vtbl{i} : rtable := {vtbl}.")
         for name, src in files.items():
             m = re.search(r"/services/(\w+)/client\.py$", name)
             if not m:
@@ -387,6 +439,11 @@ def run_e2e(ctx, n):
                 continue
             h = helpers[cls]
             want = dict(exp[svc])
+            # T1 for Model/ResVis.v: the emitted (helper name, format string) set = the model's visible set for the input descriptors
+            emitted = sorted({(k, v["fmt"]) for k, v in h.items() if not k.startswith("parse_") and not k.startswith("common_")})
+            vis_checks.append((f"e2e#{i} {svc}: helpers offered = Model/ResVis.visible",
+                               f"match visible vsch{i} vtbl{i} {vroots[svc]} with Some hs => list_eqb (pair_eqb String.eqb String.eqb) "
+                               f"(sort_pairs (map helper_sig hs)) {coq.lst('(' + coq.s(a) + ', ' + coq.s(b) + ')' for a, b in emitted)} | None => false end"))
             have = {k[:-5] for k in h if not k.startswith("parse_") and not k.startswith("common_")}
             ctx.case({"service": svc, "resources": want, **case}, nontrivial=bool(want), feature=[f"e2e-resources={len(want)}"])
             if have != set(want):
@@ -407,6 +464,13 @@ def run_e2e(ctx, n):
                     checks.append((f"e2e#{i} {svc}.{base}_path fmt", f"String.eqb (formatted (tokenize {P})) {coq.s(b['fmt'])}"))
                 checks.append((f"e2e#{i} {svc}.parse_{base}_path regex", f"String.eqb (regex_str {P}) {coq.s(p['regex'])}"))
     failing, errors, nfiles = coq.eval_checks("c19e2e", "From GV Require Import Model.ResPath.", "", checks)
+    sortdef = ("Definition pair_key (p : string * string) : string := fst p ++ (sx [0]%N) ++ snd p.\n"
+               "Definition sort_pairs (l : list (string * string)) : list (string * string) :=\n"
+               "  let keys := GV.Model.Determ.sorted_strs (GV.Model.Determ.dedup (map pair_key l)) in\n"
+               "  map (fun k => match find (fun p => String.eqb (pair_key p) k) l with Some p => p | None => (k, k) end) keys.\n")
+    vf, ve, _ = coq.eval_checks("c19vis", "From GV Require Import Model.Selective Model.Case Model.ResPath Model.ResVis Model.Determ.", "\n".join(vis_defs) + "\n" + sortdef, vis_checks, chunk=40)
+    ctx.oblige(f"T1 helpers offered by each emitted client = Model/ResVis.visible of the input descriptors ({len(vis_checks)} services)",
+               not vf and not ve and len(vis_checks) > 0, "; ".join((vf + ve)[:6]), "T1")
     ctx.oblige(f"T1 emitted helper literals = model output for the input patterns ({len(checks)} comparisons, {len(jobs)} generated libraries)",
                not failing and not errors and len(checks) > 0, "; ".join((failing + errors)[:8]), "T1")
 
